@@ -596,6 +596,13 @@ def _initialize_components(n_components, input, y=None, init='auto',
         sys.stdout.flush()
       lda.fit(input, y)
       transformation = lda.scalings_.T[:n_components]
+      if transformation.shape[0] < n_components:
+        # (fewer discriminative directions than asked for, e.g. collinear class
+        # means: as documented, the rest of the components is zero)
+        transformation = np.vstack([
+            transformation,
+            np.zeros((n_components - transformation.shape[0],
+                      transformation.shape[1]))])
     if verbose:
       print('done in {:5.2f}s'.format(time.time() - init_time))
     return transformation
